@@ -203,3 +203,50 @@ Proof.
       |change (2 ^ 32) with 4294967296; change (2 ^ (32 - 1)) with 2147483648];
       destruct (_ <? _) eqn:Ec; [apply N.ltb_lt in Ec|apply N.ltb_ge in Ec|apply N.ltb_lt in Ec|apply N.ltb_ge in Ec|apply N.ltb_lt in Ec|apply N.ltb_ge in Ec]; lia.
 Qed.
+
+(** ** strings and byte slices (string.go): length prefix only under a tag *)
+Lemma len_lenZ (s : bytes) : (Z.of_nat (length s) < 4611686018427387904)%Z -> s2u 64 (go_len s) = len s.
+Proof. intros H. unfold go_len. rewrite s2u64_nonneg by lia. unfold len. lia. Qed.
+
+Theorem gen_String_Append : forall s data tag fuel, (10 <= fuel)%nat -> (Z.of_nat (length s) < 4611686018427387904)%Z ->
+  StringCodec_Append fuel data s tag = Ok (data ++ enc CString (VStr s) tag)
+  /\ BytesCodec_Append fuel data s tag = Ok (data ++ enc CBytes (VStr s) tag).
+Proof.
+  intros s data tag fuel Hf Hl. unfold StringCodec_Append, BytesCodec_Append, StringCodec_size, BytesCodec_size, StringCodec_append, BytesCodec_append.
+  cbn [enc]. unfold frame_tag, go_len at 1 3.
+  destruct tag as [|t tg]; cbn [length Z.of_nat Z.eqb negb]; [split; reflexivity|].
+  replace (Z.eqb (Z.of_nat (S (length tg))) 0) with false by (symmetry; apply Z.eqb_neq; lia). cbn [negb].
+  rewrite (len_lenZ s Hl). rewrite gen_AppendVarUint64 by (assumption || (unfold len, two64; lia)). cbn [bind].
+  rewrite <- !app_assoc. split; reflexivity.
+Qed.
+Theorem gen_String_Size : forall s tag, (Z.of_nat (length s) + Z.of_nat (length tag) < 4611686018427387904)%Z ->
+  StringCodec_Size s tag = Z.of_N (size CString (VStr s) tag) /\ BytesCodec_Size s tag = Z.of_N (size CBytes (VStr s) tag).
+Proof.
+  intros s tag Hl. unfold StringCodec_Size, BytesCodec_Size, StringCodec_size, BytesCodec_size. cbn [size]. unfold frame_size.
+  assert (Hs : size_varuint (len s) <= 10).
+  { rewrite size_append_varuint by (unfold len, two64; lia). pose proof (append_varuint_length_bounds (len s)). lia. }
+  destruct tag as [|t tg]; cbn [length] in *.
+  - unfold go_len. cbn [length Z.of_nat Z.ltb Z.eqb negb]. unfold len. change (0 <? 0)%Z with false. cbv iota. split; lia.
+  - unfold go_len. cbn [length].
+    replace (Z.ltb 0 (Z.of_nat (S (length tg)))) with true by (symmetry; apply Z.ltb_lt; lia).
+    replace (Z.eqb (Z.of_nat (S (length tg))) 0) with false by (symmetry; apply Z.eqb_neq; lia). cbn [negb].
+    fold (go_len s). rewrite (len_lenZ s) by lia. rewrite gen_SizeVarUint by (unfold len, two64; lia).
+    unfold sadd, go_len.
+    rewrite (swrap64_small (Z.of_nat (S (length tg)) + Z.of_N (size_varuint (len s)))) by lia.
+    rewrite swrap64_small by lia. unfold len. cbn [length]. split; lia.
+Qed.
+Theorem gen_String_Omit : forall s, StringCodec_Omit s = omit CString (VStr s) /\ BytesCodec_Omit s = omit CBytes (VStr s).
+Proof. intros s. unfold StringCodec_Omit, BytesCodec_Omit, go_len. cbn [omit]. destruct s; cbn [length]; split; try reflexivity; apply Z.eqb_neq; lia. Qed.
+Theorem gen_String_Read : forall data prior wt fuel,
+  StringCodec_Read fuel data prior wt = match dec CString data (Z.to_N wt) (VStr prior) with Ok (VStr s, n) => Ok (s, Z.of_N n) | _ => Err end
+  /\ BytesCodec_Read fuel data prior wt = match dec CBytes data (Z.to_N wt) (VStr prior) with Ok (VStr s, n) => Ok (s, Z.of_N n) | _ => Err end.
+Proof. intros. unfold StringCodec_Read, BytesCodec_Read, go_len. cbn [dec app]. unfold len. split; do 2 f_equal; lia. Qed.
+
+Theorem code_String_size_law : forall s tag fuel, (10 <= fuel)%nat -> (Z.of_nat (length s) + Z.of_nat (length tag) < 4611686018427387904)%Z ->
+  exists b, StringCodec_Append fuel [] s tag = Ok b /\ StringCodec_Size s tag = Z.of_nat (length b).
+Proof.
+  intros s tag fuel Hf Hl. eexists. split; [apply gen_String_Append; [exact Hf|lia]|].
+  rewrite (proj1 (gen_String_Size s tag Hl)). cbn [app enc size]. unfold frame_tag, frame_size.
+  destruct tag as [|t tg]; [unfold len; lia|].
+  cbn [length]. rewrite !app_length. rewrite size_append_varuint by (unfold len, two64; lia). unfold len. cbn [length]. lia.
+Qed.
